@@ -26,6 +26,9 @@ Event = tuple
 Path = list
 
 
+NORETURN_CALLS = {"sys.exit", "exit", "os._exit", "quit", "handle_linting_error", "ctx.exit", "ctx.abort"}
+
+
 class TooManyPaths(Exception):
     pass
 
@@ -141,6 +144,8 @@ def _stmt(st: ast.stmt, limit: int) -> list[tuple[Path, str]]:
         return out
     if isinstance(st, (ast.FunctionDef, ast.AsyncFunctionDef, ast.ClassDef)):
         return [([], "fall")]
+    if isinstance(st, ast.Expr) and isinstance(st.value, ast.Call) and ast.unparse(st.value.func) in NORETURN_CALLS:
+        return [([("stmt", st), ("raise", st)], "raise")]
     return [([("stmt", st)], "fall")]
 
 
